@@ -68,9 +68,9 @@ def run(ctx):
     ctx.sample({"mode": "names", "s": "foo_bar__baz"})
 
     # 2. accepted programs: every compiled descriptor against the mirror and against the specification
-    #    identifier shapes: every identifier of length <= 3 (5) over {a,Z,_,9}, X-prefixed look-alikes and random longer ones,
+    #    identifier shapes: every identifier of length <= 3 (4) over {a,Z,_,9}, X-prefixed look-alikes and random longer ones,
     #    each put wherever a descriptor entry is derived from a name (json_name, synthetic oneof, map entry, group field)
-    shape_ids = G.shape_ids(rng, ctx.budget(3, 5), ctx.budget(40, 600))
+    shape_ids = G.shape_ids(rng, ctx.budget(3, 4), ctx.budget(40, 400))
     shapes = G.shape_sets(shape_ids)
     corpus = [(l, fs) for l, fs in G.CORPUS] + shapes
     parsed = G.parse_sets(ctx, [fs for _, fs in corpus])
@@ -144,7 +144,7 @@ def run(ctx):
                 "over {a,Z,_,9}, X-prefixed look-alikes and random longer ones as proto3-optional field with and without declared names on its "
                 "candidate chain, oneof member, map field, extension, group; proto2 / proto3 / editions), generated valid programs (field, oneof "
                 "and group names of all identifier shapes) and accepted near-valid mutants; distinct = distinct string / canonical source text; a program case is non-trivial when it compiled "
-                "(its descriptors are compared field by field with the mirror and with the protoc specification)" % (ctx.budget(5, 7), ctx.budget(3, 5)))
+                "(its descriptors are compared field by field with the mirror and with the protoc specification)" % (ctx.budget(5, 7), ctx.budget(3, 4)))
 
     ctx.extra["rule_families"] = {
         "F3 naming functions (JSONName, MapEntry, synthetic oneof names)": "theorem + oracle",
